@@ -11,7 +11,7 @@ def main():
     ap.add_argument("--seed", type=int, default=1); ap.add_argument("--throws", type=float, default=0.15)
     ap.add_argument("--subs", type=float, default=0.25); ap.add_argument("--enq", type=float, default=0.1)
     ap.add_argument("--drain", type=float, default=0.1); ap.add_argument("--restart", type=float, default=0.05)
-    ap.add_argument("--startsubs", type=float, default=0.1)
+    ap.add_argument("--startsubs", type=float, default=0.1); ap.add_argument("--copy", type=float, default=0.0); ap.add_argument("--ninst", type=int, default=1)
     ap.add_argument("--maxcalls", type=int, default=7); ap.add_argument("--show", type=int, default=12)
     a = ap.parse_args()
     d = core.load_def(a.name)
@@ -21,17 +21,17 @@ def main():
     print("built %d drivers in %.1fs" % (len(bins), time.time() - t0))
     wd = os.path.join(core.VERIF, "work", "fuzz_%s_%d" % (a.name, os.getpid()))
     v = core.Validator(wd)
-    for c in cfgs: v.trace_module(d, c)
+    for c in cfgs: v.trace_module(d, c, a.ninst)
     jobs = []
     for c in cfgs:
         for f in range(a.files):
             scripts = core.gen_scripts(d, a.seed * 1000 + f, a.n, throws=a.throws, subs=a.subs, enq=a.enq, drain=a.drain,
-                                       restart=a.restart, maxcalls=a.maxcalls, startsubs=a.startsubs)
+                                       restart=a.restart, maxcalls=a.maxcalls, startsubs=a.startsubs, copy=a.copy, ninst=a.ninst)
             jobs.append((c, f, scripts))
     def work(job):
         c, f, scripts = job
         tp = os.path.join(wd, "t_%s_%d.ndjson" % (c, f))
-        div, st = core.first_divergence(v, d, c, bins[(a.name, c)], scripts, tp)
+        div, st = core.first_divergence(v, d, c, bins[(a.name, c)], scripts, tp, ninst=a.ninst)
         return c, f, div, st
     bad = 0
     with cf.ThreadPoolExecutor(max_workers=core.NPROC) as ex:
